@@ -143,6 +143,6 @@ theorem sfine_one_outstanding_at_write {s : Ocpp.ServerFine.St} (h : SFine.Reach
   SFine.one_outstanding_at_write h hh hp i x hc hx
 
 example : ∃ s, SFine.Reach s ∧ s.pump = .wr 1 :=
-  ⟨_, ⟨true, true, [.connect, .sget, .push 1 0, .notify, .takeReq, .pstep, .pstep, .pstep, .pstep, .pstep, .pstep, .pstep], rfl⟩, by decide⟩
+  ⟨_, ⟨true, true, true, [.connect, .sget, .push 1 0, .notify, .takeReq, .pstep, .pstep, .pstep, .pstep, .pstep, .pstep, .pstep], rfl⟩, by decide⟩
 
 end C02
